@@ -531,7 +531,16 @@ func ruleGCMark(c *Ctx) {
 		for _, call := range callsIn(g) {
 			if _, ok := isCallTo(call, trav); ok {
 				if mc, ok := stripConv(callArgs(call.Common())[2]).(*ssa.MakeClosure); ok {
-					visitors = append(visitors, mc.Fn.(*ssa.Function))
+					vf := mc.Fn.(*ssa.Function)
+					if vf.Synthetic != "" {
+						// bound method value: the method is the visitor
+						if m := boundMethod(vf); m != nil {
+							if mf := p.SSA.FuncValue(m); mf != nil && len(mf.Blocks) > 0 {
+								vf = mf
+							}
+						}
+					}
+					visitors = append(visitors, vf)
 				}
 			}
 		}
